@@ -256,5 +256,69 @@ def process(tier, rng, cicada):
         return c.id, ",".join(out) or "[]"
 
     impl = dict(proc.pmap(one, cases))
+    # the same block run TWICE in one shell with different positional parameters in its heads: a function called as `f 3 5` and then
+    # `f 4 6` (`if cond $1`, `while cond $2`): each call must run what the structured semantics prescribes for ITS arguments
+    ct = lambda c_: "cond $%d" % c_
+    shapes = [
+        [("if", [(1, [("cmd", 1)])], [("cmd", 2)]), ("cmd", 3)],
+        [("while", 1, [("cmd", 1)]), ("if", [(2, [("cmd", 2)])], None)],
+        [("if", [(1, [("cmd", 1)]), (2, [("cmd", 2)])], [("cmd", 3)])],
+        [("while", 2, [("if", [(1, [("cmd", 1)])], [("cmd", 2)])]), ("cmd", 3)],
+    ]
+    twice = []
+    for j in range(8 if tier == "quick" else 80):
+        b = shapes[j % len(shapes)]
+        body = "\n".join(render(b, r.choice(["nl", "semi"]), None, 4, ct)) + "\n"
+        seq = {"cond %d" % k: [0] * r.below(3) + [r.choice([1, 2])] for k in (3, 4, 5, 6)}
+        if j % 2 == 0:
+            seq["cond 3"], seq["cond 4"] = [0, 1], [1]            # the two calls must take different branches
+        for n_ in (1, 2, 3):
+            seq["stage %d 0" % n_] = [0]
+        seqf = ",".join(hx(k) + ":" + ".".join(str(x) for x in v) for k, v in seq.items())
+        pair = []
+        for tag, a in (("a", ["3", "5"]), ("b", ["4", "6"])):
+            c = Case("srun", [gens.env_field(exported={"HOME": "/h"}), hx(body), ",".join(hx(x) for x in ["cicada", "f"] + a), seqf, "[]",
+                              # the reference reads the block with THIS call's arguments in place of $1 / $2
+                              " ".join(wire(b, lambda c_, a=a: "cond %s" % a[c_ - 1]))],
+                     {"gen": "p", "t": "function f, call %s: %s" % (" ".join(a), body), "seq": seq})
+            c.id = "q%d%s" % (j, tag)
+            pair.append(c)
+        twice.append((j, body, seq, pair))
+
+    def one_twice(job):
+        j, body, seq, pair = job
+        d = os.path.join(sb.dir, "q%d" % j)
+        os.makedirs(d)
+        for k, v in seq.items():
+            if k.startswith("cond "):
+                open(os.path.join(d, k.split()[1] + ".seq"), "w").write(" ".join(str(x) for x in v))
+        open(os.path.join(d, "s.sh"), "w").write("function f() {\n" + body + "}\nf 3 5\nstage 99 0\nf 4 6\n")
+        log = os.path.join(d, "trace.log")
+        try:
+            p = subprocess.run([cicada, os.path.join(d, "s.sh")], cwd=d, env=sb.env({"STAGE_LOG": log, "COND_DIR": d}), stdin=subprocess.DEVNULL,
+                               stdout=subprocess.PIPE, stderr=subprocess.PIPE, timeout=30)
+        except subprocess.TimeoutExpired:
+            return [(c.id, "HANG") for c in pair]
+        if b"syntax error" in p.stderr:
+            return [(c.id, "SYNTAX-ERROR") for c in pair]
+        parts, cur = [], []
+        for ln in (open(log).read().split("\n") if os.path.exists(log) else []):
+            if not ln:
+                continue
+            name, st = ln.rsplit(":", 1)
+            if name == "99":
+                parts.append(cur)
+                cur = []
+                continue
+            text = name if name.startswith("cond ") else "stage %s %s" % (name, st)
+            cur.append("%s:%s" % (hx(text), st))
+        parts.append(cur)
+        if len(parts) != 2:
+            return [(c.id, "MARKER-MISSING " + ",".join(cur)) for c in pair]
+        return [(c.id, ",".join(pt) or "[]") for c, pt in zip(pair, parts)]
+
+    for part in proc.pmap(one_twice, twice):
+        impl.update(dict(part))
+    cases = cases + [c for _, _, _, pair in twice for c in pair]
     sb.cleanup()
     return [("script", cases, impl)]
